@@ -147,8 +147,10 @@ CHECKS = {
              "state = previous or new checkpoint, weights of a completed save, or a fresh start only if nothing had "
              "completed; the continued run must complete and satisfy the C01/C05 clauses (trace validation).",
         design_ref="DESIGN.md 4 C11",
-        note="Standard sampler (save_existing=True is the only mode it uses); process kill, not power loss (rename "
-             "atomic, killed writer leaves a prefix); known findings weights_in_place:* (known_findings.json).",
+        note="Both samplers (standard: save_existing=True, the only mode it uses; importance sampler: with and without "
+             "save_existing_checkpoint, per-level weight files); process kill, not power loss (rename atomic; a killed "
+             "writer leaves a prefix of the file, bytes still in a user-space buffer are lost); known findings "
+             "weights_in_place:* (known_findings.json).",
     ),
     "C16": dict(
         category="model_checking",
